@@ -211,17 +211,28 @@ def formulas_by_col(doc):
 
 
 def summary_groupby_record_valued(doc, table_id):
-  """True if `table_id` is a summary table with a group-by column holding Record/RecordSet values
-  (['R',..]/['r',..]) - such keys do not survive a reload (they decode to RecordStub objects)."""
+  """True if `table_id` is a summary table with a group-by column holding encoded objects other than plain
+  lists in list-typed columns (records ['R'..]/['r'..], errors ['E'..], lists in non-list columns ...):
+  such keys do not survive a reload (they decode to stub/exception objects that no longer match)."""
   tm = [t for t in doc.tables_meta() if t['tableId'] == table_id]
   if not tm or not tm[0]['summarySourceTable']:
     return False
   rep = doc.fetch_repr(table_id)
-  for c in doc.columns_meta():
+  cols = {c['id']: c for c in doc.columns_meta()}
+  tids = {t['id']: t['tableId'] for t in doc.tables_meta()}
+  src_rep = None
+  for c in cols.values():
     if c['parentId'] == tm[0]['id'] and c['summarySourceCol']:
       for v in rep[3].get(c['colId'], []):
-        if isinstance(v, list) and v and v[0] in ('R', 'r'):
+        if isinstance(v, list) and v and v[0] != 'L':
           return True
+      src = cols.get(c['summarySourceCol'])
+      if src and src['type'].split(':')[0] not in ('ChoiceList', 'RefList'):
+        if src_rep is None:
+          src_rep = doc.fetch_repr(tids[src['parentId']])
+        for v in src_rep[3].get(src['colId'], []):
+          if isinstance(v, list) and v:      # errors, records, lists in a scalar column of the source
+            return True
   return False
 
 
